@@ -18,6 +18,10 @@ func registerProps() {
 		Rules: []string{"R-INSERT-GUARD", "R-TOMB"},
 		Explanation: "wip", NotDecided: "wip",
 	}
+	propTable["C09"] = PropDef{Title: "Backfill", Rules: []string{"R-BACKFILL"}, Explanation: "wip", NotDecided: "wip"}
+	propTable["C10"] = PropDef{Title: "Durability", Rules: []string{"R-TXN", "R-DSN", "R-HLC-MARK-SQL"}, Explanation: "wip", NotDecided: "wip"}
+	propTable["C14"] = PropDef{Title: "Expiry", Rules: []string{"R-EXP-SQL"}, Explanation: "wip", NotDecided: "wip"}
+	propTable["C19"] = PropDef{Title: "Queries", Rules: []string{"R-KEYSPACE", "R-LIVE"}, Explanation: "wip", NotDecided: "wip"}
 	propTable["C01"] = PropDef{
 		Title: "KV read-after-write",
 		Rules: []string{"R-TXN", "R-ROWCOMPLETE"},
